@@ -23,9 +23,16 @@ Merged(v, o) ==
   IF v.cli[o] # None THEN v.cli[o]
   ELSE IF o \in Flags THEN (IF v.cfg[o] = "true" THEN "on" ELSE None)
   ELSE v.cfg[o]
+\* configargparse drops a config entry only when it RECOGNISES the option among the
+\* command-line tokens (exact -x / --long token, or --long=V).  For a glued short form
+\* or an abbreviation it injects the config value in front of the command line and
+\* leaves the override to argparse's "last occurrence wins" - the merged value is the
+\* same, but the injected config value has been through the type function first.
+Recognised(v, o) == v.sp[o] \in {"any", "long", "eq", "short"}
 ArgparseError(v) ==
   \/ Merged(v, "i") = None \/ Merged(v, "o") = None
   \/ HbBad(Merged(v, "hb"))
+  \/ (v.cli["hb"] # None /\ ~Recognised(v, "hb") /\ HbBad(v.cfg["hb"]))
 \* ---- main(): the checks in source order ------------------------------------
 Checks == << "chk_input", "chk_output", "chk_undo_anon", "chk_undo_salt", "chk_dump" >>
 Fails(v, c) ==
